@@ -270,7 +270,21 @@ def main():
     def run_harness(c):
         ic = ImplCoverage(pid)
         try:
-            mod.run(c)
+            setting = os.environ.get('VERIF_SETTINGS')          # experiment: the whole harness under a global setting a user may have chosen
+            if setting == 'float64':
+                import torch
+                torch.set_default_dtype(torch.float64)
+                mod.run(c)
+            elif setting == 'autocast':
+                import torch
+                with torch.autocast(device_type='cpu'):
+                    mod.run(c)
+            elif setting == 'nograd':
+                import torch
+                torch.set_grad_enabled(False)
+                mod.run(c)
+            else:
+                mod.run(c)
         except Exception:
             tb = traceback.format_exc()
             c.alarm('harness', 'harness error: ' + tb[-1500:])
